@@ -426,4 +426,6 @@ def run(model, tier):
     from . import c14_modes
     c14_modes.rod_mirror(model, res)
     noh_vs_cog19(model, res)
+    from . import c02_blackbox
+    c02_blackbox.geometry_link(model, res)     # general black-box Noh class: symmetry = geometry - 1 however it is constructed
     return res
